@@ -331,7 +331,7 @@ MANIFEST = {
     "text": "Deductive: the signature-side and the dispatch-side primary-response selectors are each proved to pick the best-priority response for all "
             "response lists (so they agree); streaming helpers proved (C18 contracts). Structural: each declared 2xx response is decoded by the "
             "expression kind its content type demands, per corpus package. Runtime: typed values and re-serialisation through a mock transport.",
-    "note": "Value-level decoding is cattrs (assumed). Known finding: a single text/plain response is decoded with response.json().",
+    "note": "Value-level decoding is cattrs (assumed). Known findings: a top-level date-time / date body is returned as text; operations of a tag spelled like a schema return raw dicts.",
     "technique": "contract-based deductive verification (loop invariants, quantified spec, z3) + bounded structural / runtime checks on emitted clients",
 }
 
